@@ -279,4 +279,19 @@ def specLine (env : Env) (r : Record) (out : List Char) : Verdict :=
       else if f.time ≠ want.time ∨ f.threadId ≠ want.threadId then .fail "time-or-thread_id"
       else .ok
 
+/-! ### histories
+
+The statement speaks of *each record*: what a record's line says may depend on that record and its
+surroundings (time, thread, MDC) only — never on what was encoded before it on the same thread, be it
+successfully or not.  For a step whose writer accepted everything (and whose message could be
+rendered) the verdict is therefore `specLine` with that step's own environment and record.  A step
+that was cut short must have delivered a prefix of that same line, no longer than the writer allowed. -/
+
+/-- verdict on the bytes of a step that did not complete -/
+def specCutStep (s : Step) (got : Bytes) : Bool :=
+  got.isPrefixOf (utf8 (jsonLine s.env s.record)) &&
+  (match s.writer with
+   | .acceptAll => true
+   | .failAfter k => decide (got.length ≤ k))
+
 end Log4rs.Json
